@@ -34,6 +34,8 @@ func init() {
 func runC16(w *World, r *Report) {
 	hrGzipWholeBody(w, r, "R2")
 	hrObfuscationFlagAlwaysRead(w, r, "R3")
+	hrQueryParamKey(w, r, "R3")
+	hrHeaderExclusionLists(w, r, "R3")
 	hrDecompressFallsBackToRaw(w, r, "R2")
 	hrHARPluginHasher(w, r, "R1")
 	hrContentEncodingFallback(w, r, "R2")
